@@ -51,6 +51,12 @@ const QUICK_PROGRAMS: &[&str] = &[
     "at=ceil h=1,1 : clone read drop | mutate drop",
     "at=ceil-1 h=1,1 : clone mutate | clone drop",
     "at=ceil-1 h=1,1 : clone | clone",
+    // by-reference programs: threads 1.. clone/read through a shared `&handle` of thread 0
+    "h=1,0,0 refs=1>0,2>0 : join drop | cloneref drop | cloneref drop",
+    "h=1,0,0 refs=1>0,2>0 : join mutate drop | cloneref readref drop | cloneref drop",
+    "h=1,0,0 refs=1>0,2>0 : join unwrap | cloneref | cloneref drop",
+    "h=1,0 refs=1>0 : clone join drop drop | cloneref drop",
+    "h=1,0,0 refs=1>0,2>0 : read join drop | readref cloneref drop | cloneref readref drop",
 ];
 
 /// Fixed programs of the thorough tier only.
@@ -391,7 +397,10 @@ fn shrink(
                 tries += 1;
                 let mut cand = best.prog.clone();
                 cand.threads[t].remove(i);
-                if cand.threads.iter().all(|th| th.is_empty()) || !cand.recv_satisfiable() {
+                if cand.threads.iter().all(|th| th.is_empty())
+                    || !cand.recv_satisfiable()
+                    || cand.validate().is_err()
+                {
                     continue;
                 }
                 let e = evaluate(&cand, bound, false, complement, lean);
@@ -415,6 +424,7 @@ fn monitor_expected(kind: &str) -> &'static str {
         "leak" => "the buffer is released exactly once, when the last handle is dropped",
         "content" => "each value still reads its expected content: final payload == number of granted mutations",
         "unique-while-shared" => "in-place mutable access or ownership is granted only if no other handle still refers to the buffer",
+        "freed-while-alive" => "the buffer is released exactly once and only after the last handle is gone",
         "count-mismatch" => "the share count never exceeds its ceiling: a clone at the ceiling must take a private copy",
         _ => "-",
     }
@@ -445,6 +455,7 @@ fn main() {
             lines.extend(THOROUGH_PROGRAMS.iter().map(|s| s.to_string()));
             lines.extend(prog::generate(args.seed, 30));
             lines.extend(prog::generate_ceiling(args.seed, 8));
+            lines.extend(prog::generate_byref(args.seed, 10));
         }
     }
     let progs: Vec<Prog> = lines
